@@ -569,42 +569,181 @@ def snap(ctx: Ctx) -> None:
 
 
 def thr1(ctx: Ctx) -> None:
+    """THR-1 unwrap_thread yields the thread's innermost frame only if the thread was alive in a sample taken before
+    sys._current_frames() and in one taken after it and the frame exists; otherwise no frames.  Decided as a truth table over
+    the two samples and the lookup result (each is_alive() call occurrence is its own atom), whatever the control-flow shape
+    (helpers that the reference tree does not have are inlined first)."""
+    import copy
+    from ..stepper import Stepper, enumerate_table
+    from ..emit import Unsupported
     mod = ctx.P.mod("_glue")
     q = "glue_threading.unwrap_thread"
     fn = mod.fn(q)
     ctx.R.saw(mod, q)
     tvar = fn.args.args[0].arg
-    body = [s for s in fn.body if not (isinstance(s, ast.Expr) and isinstance(s.value, ast.Constant))]
-    alive = [s for s in body if isinstance(s, ast.Assign) and norm(s.value) == f"{tvar}.is_alive()"]
-    frames = [s for s in body if isinstance(s, ast.Assign) and "sys._current_frames()" in norm(s.value)]
-    ifs = [s for s in body if isinstance(s, ast.If)]
-    if len(alive) != 1 or len(frames) != 1 or len(ifs) != 1:
-        ctx.R.fail("THR-1", mod, fn, "unwrap_thread must take one liveness sample before sys._current_frames() and test one after", construct="was_alive / _current_frames / guard")
+    body = copy.deepcopy([s for s in fn.body if not (isinstance(s, ast.Expr) and isinstance(s.value, ast.Constant))])
+    events: List[str] = []
+
+    class Tag(ast.NodeTransformer):
+        def visit_Call(self, c: ast.Call):
+            self.generic_visit(c)
+            t = norm(c)
+            if t == f"{tvar}.is_alive()":
+                k = sum(1 for e in events if e.startswith("alive"))
+                events.append(f"alive{k}")
+                return ast.copy_location(ast.Name(id=f"ALIVE{k}", ctx=ast.Load()), c)
+            if t.startswith("sys._current_frames()") and isinstance(c.func, ast.Attribute) and c.func.attr == "get":
+                events.append("frames")
+                if f"{tvar}.ident" not in t:
+                    events.append("noident")
+                return ast.copy_location(ast.Name(id="FRAME", ctx=ast.Load()), c)
+            return c
+
+        def visit_Subscript(self, n: ast.Subscript):
+            self.generic_visit(n)
+            if norm(n.value) == "sys._current_frames()":
+                events.append("frames")
+                if f"{tvar}.ident" not in norm(n):
+                    events.append("noident")
+                return ast.copy_location(ast.Name(id="FRAME", ctx=ast.Load()), n)
+            return n
+
+    body = [Tag().visit(s) for s in body]
+    if "noident" in events:
+        ctx.R.fail("THR-1", mod, fn, "the frame must be looked up by the thread's ident", construct="lookup by ident")
+    ev = [e for e in events if e != "noident"]
+    if ev.count("frames") != 1:
+        ctx.R.undecided("THR-1", f"unwrap_thread reads sys._current_frames() {ev.count('frames')} times")
         return
-    av, fv = norm(alive[0].targets[0]), norm(frames[0].targets[0])
-    if not (body.index(alive[0]) < body.index(frames[0]) < body.index(ifs[0])):
-        ctx.R.fail("THR-1", mod, fn, "the first liveness sample must precede sys._current_frames() and the second follow it", construct="sample order")
-    else:
-        ctx.R.ok("THR-1", "is_alive() sampled before sys._current_frames(); second sample in the guard after it")
-    if f"{tvar}.ident" not in norm(frames[0].value):
-        ctx.R.fail("THR-1", mod, frames[0], "the frame must be looked up by the thread's ident")
-    atoms = [f"{fv} is None", f"{tvar}.is_alive()", av]
+    i = ev.index("frames")
+    before, after = [e for e in ev[:i] if e.startswith("alive")], [e for e in ev[i + 1:] if e.startswith("alive")]
+    if not before or not after:
+        ctx.R.fail("THR-1", mod, fn, "unwrap_thread must take one liveness sample before sys._current_frames() and test one after "
+                   f"(found {len(before)} before, {len(after)} after): a thread ident reused between the two is otherwise trusted", construct="was_alive / _current_frames / guard")
+        return
+    ctx.R.ok("THR-1", "is_alive() sampled before sys._current_frames(); second sample after it")
+    alive_atoms = before + after
+    known = [a.replace("alive", "ALIVE") for a in alive_atoms] + ["FRAME is None"]
+
+    def run(assign):
+        st = Stepper(assign)
+        k, v = st.run(body, {})
+        if k == "return":
+            return norm(v) if v is not None else "None"
+        return k
+
     try:
-        ok, cex = equivalent(ifs[0].test, lambda e: e[atoms[0]] or not e[atoms[1]] or not e[atoms[2]], atoms)
-    except AnalysisError as ex:
-        ok, cex = False, str(ex)
-    ret_empty = len(ifs[0].body) == 1 and isinstance(ifs[0].body[0], ast.Return) and norm(ifs[0].body[0].value) in ("[]", "()")
-    if ok and ret_empty:
-        ctx.R.ok("THR-1", "no frames unless the frame exists and the thread was alive both before and after the lookup", "truth table over 3 atoms")
+        atoms, rows = enumerate_table(run, known)
+    except Unsupported as ex:
+        ctx.R.undecided("THR-1", f"unwrap_thread is outside the step interpreter: {ex}")
+        return
+    bad = None
+    for assign, out in rows:
+        live = all(assign[a] for a in known[:-1]) and not assign["FRAME is None"]
+        good = (out == "StackSlice(inner=FRAME)") if live else (out in ("[]", "()"))
+        if not good and bad is None:
+            bad = (assign, out)
+    if bad is None:
+        ctx.R.ok("THR-1", "StackSlice(inner=<frame>) iff the frame exists and the thread was alive before and after the lookup; otherwise no frames", f"truth table over {atoms}")
     else:
-        ctx.R.fail("THR-1", mod, ifs[0], f"unwrap_thread must return no frames unless the frame is not None and the thread was alive before and after the lookup (ident reuse); counterexample {cex}",
-                   construct="liveness guard")
-    last = body[-1]
-    if isinstance(last, ast.Return) and norm(last.value) == f"StackSlice(inner={fv})":
-        ctx.R.ok("THR-1", f"otherwise StackSlice(inner={fv})")
-    else:
-        ctx.R.fail("THR-1", mod, last, "a live thread must unwrap to StackSlice(inner=<its innermost frame>)")
+        assign, out = bad
+        shown = {k: v for k, v in assign.items() if k in known}
+        ctx.R.fail("THR-1", mod, fn, f"unwrap_thread must return no frames unless the frame is not None and the thread was alive before and after the lookup (ident reuse), and "
+                   f"StackSlice(inner=<that frame>) otherwise; with {shown} it returns `{out}`", construct="liveness guard")
 
 
-C06 = [esc1, esc2, esc3, null1]
-C07 = [snap, thr1, null1]
+def thr2(ctx: Ctx) -> None:
+    """THR-2 the worker thread that serves a to_thread.run_sync call is picked by the identity of its name object
+    (`thread.name is thread_name`: the name string object is taken from the waiting frame's locals), never by equality,
+    hashing or containment: default worker names of concurrent calls made from one place are equal strings"""
+    mod = ctx.P.mod("_glue")
+    q = "glue_trio.elaborate_to_thread_run_sync"
+    if not mod.has(q):
+        raise AnalysisError(f"anchor vanished: _glue.{q}")
+    fn = mod.fn(q)
+    ctx.R.saw(mod, q)
+    names = {norm(s.targets[0]) for s in ast.walk(fn) if isinstance(s, ast.Assign) and "thread_name" in norm(s.value) and isinstance(s.targets[0], ast.Name)} | {"thread_name"}
+    ident = [c for c in ast.walk(fn) if isinstance(c, ast.Compare) and len(c.ops) == 1 and any(isinstance(x, ast.Attribute) and x.attr == "name" for x in [c.left] + c.comparators)
+             and any(norm(x) in names for x in [c.left] + c.comparators)]
+    by_key = [c for c in ast.walk(fn) if (isinstance(c, ast.DictComp) and isinstance(c.key, ast.Attribute) and c.key.attr == "name")
+              or (isinstance(c, ast.Call) and isinstance(c.func, ast.Attribute) and c.func.attr in ("get", "index", "count") and c.args and norm(c.args[0]) in names)
+              or (isinstance(c, ast.Subscript) and norm(c.slice) in names)]
+    if ident and all(isinstance(c.ops[0], ast.Is) for c in ident) and not by_key:
+        ctx.R.ok("THR-2", f"{q}: the hosting thread is the one whose name *is* the waiting frame's thread_name object")
+    elif any(isinstance(c.ops[0], (ast.Eq, ast.In)) for c in ident) or by_key:
+        at = by_key[0] if by_key else ident[0]
+        ctx.R.fail("THR-2", mod, at, f"{q}: the worker thread is selected by the value of its name (`{norm(at)[:60]}`), not by the identity of the name object: two concurrent to_thread.run_sync calls "
+                   "with equal default names get each other's (or the same) thread spliced into their stacks", construct="worker thread matched by name value")
+    else:
+        ctx.R.undecided("THR-2", f"{q}: cannot see how the hosting thread is selected")
+
+
+GLOBAL_MUTATORS = {
+    # call -> what undoes it
+    "gc.disable": "gc.enable", "gc.enable": "gc.disable", "gc.freeze": "gc.unfreeze", "gc.set_threshold": "gc.set_threshold", "gc.set_debug": "gc.set_debug",
+    "sys.setswitchinterval": "sys.setswitchinterval", "sys.settrace": "sys.settrace", "sys.setprofile": "sys.setprofile",
+    "sys.setrecursionlimit": "sys.setrecursionlimit", "threading.settrace": "threading.settrace", "threading.setprofile": "threading.setprofile",
+    "warnings.simplefilter": "warnings.catch_warnings", "warnings.filterwarnings": "warnings.catch_warnings", "signal.signal": "signal.signal",
+    "faulthandler.enable": "faulthandler.disable", "os.chdir": "os.chdir",
+}
+
+
+def glob1(ctx: Ctx) -> None:
+    """GLOB-1 extraction leaves interpreter-wide state as it found it: a call that changes process-global state
+    (gc.disable, sys.setswitchinterval, sys.settrace, warnings filters, ...) anywhere in the package has its undo in a
+    `finally:` that covers everything executed after it (for a generator-based context manager: the try around the yield);
+    today the package contains no such call"""
+    n = 0
+    # embedded positive example: the rule must recognise an unprotected pause
+    example = ast.parse("def f():\n    gc.disable()\n    yield\n    gc.enable()\n")
+    ctx.R.positive_example("GLOB-1", bool(_glob_findings(example.body[0], lambda c: norm(c.func))))
+    for mod in ctx.P.analysed_mods():
+        for q, fn in mod.defs.items():
+            if not isinstance(fn, (ast.FunctionDef, ast.AsyncFunctionDef)):
+                continue
+            def name_of(c: ast.Call, _m=mod) -> str:
+                cal = ctx.P.resolve_call(_m, c)
+                return cal.name if cal.kind in ("stdlib", "module") and cal.name else norm(c.func)
+            for c, undo in _glob_findings(fn, name_of, mod):
+                n += 1
+                ctx.R.fail("GLOB-1", mod, c, f"{q}: `{norm(c)[:40]}` changes interpreter-wide state and its undo (`{undo}`) is not in a `finally:` covering what runs afterwards: "
+                           "if that code raises (a failing frame analysis does), the process is left changed after extract() returns", construct=f"{q}: {norm(c.func)} without finally")
+    if n == 0:
+        ctx.R.ok("GLOB-1", "no call in the package changes interpreter-wide state without a covering finally (none changes it at all)")
+
+
+def _glob_findings(fn: ast.AST, name_of, mod: Optional[Mod] = None):
+    out = []
+    for c in ast.walk(fn):
+        if not isinstance(c, ast.Call):
+            continue
+        nm = name_of(c)
+        nm = nm[len("builtins."):] if nm.startswith("builtins.") else nm
+        if nm not in GLOBAL_MUTATORS:
+            continue
+        undo = GLOBAL_MUTATORS[nm]
+        if undo == "warnings.catch_warnings":
+            # fine inside `with warnings.catch_warnings():`
+            if mod is not None and any(isinstance(a, ast.With) and any("catch_warnings" in norm(i.context_expr) for i in a.items) for a in mod.ancestors(c)):
+                continue
+            out.append((c, undo))
+            continue
+        # is there a try ... finally whose finalbody calls the undo and which starts at or after this call?
+        covered = False
+        for t in ast.walk(fn):
+            if isinstance(t, ast.Try) and t.finalbody and any(isinstance(x, ast.Call) and norm(x.func) == undo for s_ in t.finalbody for x in ast.walk(s_)):
+                if t.lineno >= c.lineno or any(x is c for s_ in t.body for x in ast.walk(s_)):
+                    covered = True
+        # the undo call itself (e.g. gc.enable() restoring) is not a finding when it is the covered partner
+        is_partner = any(isinstance(t, ast.Try) and any(x is c for s_ in t.finalbody for x in ast.walk(s_)) for t in ast.walk(fn))
+        if not covered and not is_partner:
+            # an undo that merely restores (gc.enable after gc.disable in the same function) is reported once, at the mutator
+            partner_of_other = any(isinstance(o, ast.Call) and o is not c and GLOBAL_MUTATORS.get(norm(o.func)) == nm and o.lineno < c.lineno for o in ast.walk(fn))
+            if partner_of_other and nm in ("gc.enable",):
+                continue
+            out.append((c, undo))
+    return out
+
+
+C06 = [esc1, esc2, esc3, null1, glob1]
+C07 = [snap, thr1, thr2, null1]
